@@ -106,6 +106,12 @@ CHECKS["C10"] = dict(engine="tlc+srvdrive",
    text="TLC checks AtMostOnce, NoStrayReply, per-clause invariants and termination for pipelined requests on the code-shaped state machine (the four known deviations, switched on one at a time, each violate their clause: vacuity guards). Real servers started through the public API (tcp/udp, pool 0/1/2/4, handle timeout 0/150 ms; one child process per configuration) receive TARS/TUP/JSON requests, two-way and one-way, for ping / ok / failing / slow / unknown functions with timeouts 0 / already elapsed / ample, pipelined on 1-4 connections; the frames that come back are strict-decoded by TarsSchema and judged: exactly one reply (none for one-way), id / version / packet type echoed, ping not dispatched, error code and message conveyed, queue-timeout code without execution, timeout reply under a handle timeout.",
    design_ref="5/C10", note="Trusted: ServerInvoke.tla Resp as the reading of the statement; faults that harness timing could explain are reported only if they reproduce 3 times; UDP quiescence is time-based.")
 
+CHECKS["C16"] = dict(engine="tlc+tars2go+codecdrive",
+   technique="TLA+ token-level pushdown automaton of the IDL (IdlGrammar.tla, checked exhaustively to stack depth 3) whose transitions become one run of the tars2go binary each, judged by TLC (Oracle_IdlGrammar); a TLA+ generative model of valid programs (IdlPrograms.tla) sampled by TLC, rendered, generated, compiled and pushed through the TarsSchema codec oracles with independently extracted schemas; regeneration diff of the checked-in bindings",
+   category="model_checking",
+   text="Clause 1: TLC samples abstract programs (modules, enums, consts, structs with members of every type incl. nested containers, cross-module references, defaults, fixed arrays, interfaces); each is rendered to IDL, run through the tars2go built from the working tree (must terminate, exit 0), compiled in batches, enum constants checked, and the generated codecs judged by Oracle_Schema / Oracle_Dec (C03/C04/C06 oracles) against schemas from lib/idl2schema.py. Clause 2: for every configuration x token of the automaton one run of the binary (viable token + completion, soft token, stray token, end of input) plus random bytes, token soup and cut/mutated programs: it must terminate within 5 s; exit 0 must come with compiling output; TLC's Parse decides what is in the language. Clause 3: tars/protocol/res/*.tars regenerated with the Makefile's flags and compared with the checked-in files after gofmt and banner normalisation.",
+   design_ref="5/C16", note="Trusted: IdlGrammar.tla as the definition of the language; go build as the judge of 'compiles'; lenient acceptances whose output compiles are observations. Call transparency of generated proxies is C01's subject (compiled only here).")
+
 PENDING = {}
 
 def main():
